@@ -213,6 +213,15 @@ class WindowModel(SM.Monitor):
                 if after != before:
                     sim.fail(f'stale-response-accepted:{ex}', f'a {ex} response (ID {h["msgid"]}) that matches no outstanding '
                                                               f'request changed the endpoint: {diff(before, after)}')
+        for o in ev.out:
+            if len(o.data) >= 28 and o.data[19] & 0x20:
+                d = ev.dgram
+                ok = (d is not None and len(d.data) >= 28 and not d.data[19] & 0x20 and d.data[18] == o.data[18]
+                      and d.data[20:24] == o.data[20:24])
+                if not ok:
+                    sim.fail(f'response-not-to-delivered-request:{ev.kind}',
+                             f'a {SM.W_EXCH.get(o.data[18])} response (ID {int.from_bytes(o.data[20:24], "big")}) was transmitted during '
+                             f'{SM.describe(ev)}, which did not deliver a request with that exchange type and ID')
         self.see_emissions(sim)
 
     def end(self, sim):
@@ -291,3 +300,6 @@ def run(ctx):
     n = 120 if ctx.quick else 6000
     for st_ in pmap(worker, [(n, ctx.seed * 64 + i) for i in range(common.NCPU)]):
         ctx.stats.merge(st_)
+    if not ctx.quick:
+        import sys as _sys
+        common.hyp_fuzz_stage(ctx, _sys.modules[__name__], 'cases()')
